@@ -88,6 +88,7 @@ def run(ck, F):
                  'the bucket selected by the hash of the word failed', floor=4)
     W = ('param', 0)
     kinds = {}
+    found_pred = []
     for st, k, v in outs:
         if k != 'return':
             ck.fail(R1, 'no-throw', f'intern may throw {v}', loc=f['loc'], fn=f['id'])
@@ -96,82 +97,72 @@ def run(ck, F):
         conds = st.conds
         c_empty = [val for c, val in conds if named_call(c, 'empty') and c[2] == W]
         c_known = [val for c, val in conds if named_call(c, 'word_if_known') and c[3] == (W,)]
-        c_found = [(c, val) for c, val in conds if find(c, lambda t: named_call(t, 'find_if')) is not None]
+        # the bucket search, whichever way it is written (std::find_if over the whole bucket, a range-for): the evaluator
+        # summarises it as `some element of <bucket> satisfies <predicate>` / `no element of <bucket> does`
+        elem = find(v, lambda t: isinstance(t, tuple) and len(t) == 2 and t[0] == 'elem') if v is not None else None
+        noel = [c for c, val in conds if isinstance(c, tuple) and c and c[0] == 'noelem' and val]
+
+        def selected_by_hash(bucket):
+            sel = bucket if bucket and named_call(bucket, 'operator[]') else None
+            return sel is not None and find(sel[3][0], lambda t: isinstance(t, tuple) and len(t) >= 4 and t[0] == 'call' and 'std::hash<' in t[1] and t[3] == (W,)) is not None \
+                and linear_free(sel[3][0], W)
         if c_empty == [True]:
             kinds['empty'] = (v == ('global', 'ipr::String::empty_string()::empty') or 'empty_string' in contracts.render(v, st, {})) and not emp
         elif c_known == [True]:
             kinds['reserved'] = find(v, lambda t: named_call(t, 'word_if_known')) is not None and not emp
-        elif c_found:
-            c, val = c_found[0]
-            fi = find(c, lambda t: named_call(t, 'find_if'))
-            # find_if(bucket.begin(), bucket.end(), eq) compared with bucket.end()
-            b0 = fi[3][0]
-            bucket = b0[2] if named_call(b0, 'begin') else None
-            endc = find(c, lambda t: named_call(t, 'end') and t[2] == bucket and t is not fi[3][1])
-            sel = bucket if bucket and named_call(bucket, 'operator[]') else None
-            hashed = sel is not None and find(sel[3][0], lambda t: isinstance(t, tuple) and len(t) >= 4 and t[0] == 'call' and 'std::hash<' in t[1] and t[3] == (W,)) is not None \
-                and linear_free(sel[3][0], W)
-            whole = bucket is not None and named_call(fi[3][1], 'end') and fi[3][1][2] == bucket
-            # direction of the test
-            neg = False
-            cc = c
-            while isinstance(cc, tuple) and cc[0] == 'un' and cc[1] == '!':
-                cc, neg = cc[2], not neg
-            eqname = contracts.fn_simple(cc[1]) if isinstance(cc, tuple) and cc[0] == 'call' else None
-            is_found = None
-            if eqname in ('operator==', 'operator!='):
-                holds = val if not neg else (not val)
-                is_found = (not holds) if eqname == 'operator==' else holds
-            if is_found is True:
-                kinds['existing'] = hashed and whole and not emp and find(v, lambda t: named_call(t, 'find_if')) is not None
-            elif is_found is False:
-                ok = hashed and whole and len(emp) == 1 and emp[0][2] == bucket
-                # the stored view is built from the arena copy, not from the argument
-                if ok:
-                    node = st.heap[emp[0][3][1]]
-                    txt = node.fields.get('txt')
+        elif elem is not None and v == elem:
+            bucket = elem[1]
+            preds = [c for c, val in conds if val and find(c, lambda t: t == elem) is not None]
+            kinds['existing'] = selected_by_hash(bucket) and not emp and len(preds) == 1
+            if len(preds) == 1:
+                found_pred.append((preds[0], elem))
+        elif noel:
+            bucket = noel[0][1]
+            ok = selected_by_hash(bucket) and len(emp) == 1 and emp[0][2] == bucket
+            # the stored view is built from the arena copy, not from the argument
+            if ok:
+                node = st.heap[emp[0][3][1]]
+                txt = node.fields.get(F.role_field('ipr::impl::String', lambda fl: 'basic_string_view' in fl['t'] or 'word_view' in fl['t'], 'view of the characters'))
 
-                    def unc(t):
-                        while isinstance(t, tuple) and t and t[0] == 'castto':
-                            t = t[2]
-                        return t
-                    good_txt = False
-                    if isinstance(txt, tuple) and txt[0] == 'call' and contracts.fn_simple(txt[1]) == 'basic_string_view' and len(txt[3]) == 2:
-                        a0, a1 = unc(txt[3][0]), unc(txt[3][1])
-                        if a0[0] == 'fld' and a1[0] == 'fld' and a0[2] == 'data' and a1[2] == 'length' and a0[1] == a1[1]:
-                            x = a0[1]
-                            mk = x[1] if x[0] == 'deref' else None
-                            good_txt = mk is not None and named_call(mk, 'make_string') and len(mk[3]) == 2 \
-                                and named_call(mk[3][0], 'data') and mk[3][0][2] == W \
-                                and (named_call(mk[3][1], 'length') or named_call(mk[3][1], 'size')) and mk[3][1][2] == W
-                    kinds['created'] = good_txt and (v == emp[0][3] or named_call(v, 'front'))
-                else:
-                    kinds['created'] = False
+                def unc(t):
+                    while isinstance(t, tuple) and t and t[0] == 'castto':
+                        t = t[2]
+                    return t
+                good_txt = False
+                if isinstance(txt, tuple) and txt[0] == 'call' and contracts.fn_simple(txt[1]) == 'basic_string_view' and len(txt[3]) == 2:
+                    a0, a1 = unc(txt[3][0]), unc(txt[3][1])
+                    if a0[0] == 'fld' and a1[0] == 'fld' and a0[2] == 'data' and a1[2] == 'length' and a0[1] == a1[1]:
+                        x = a0[1]
+                        mk = x[1] if x[0] == 'deref' else None
+                        good_txt = mk is not None and named_call(mk, 'make_string') and len(mk[3]) == 2 \
+                            and named_call(mk[3][0], 'data') and mk[3][0][2] == W \
+                            and (named_call(mk[3][1], 'length') or named_call(mk[3][1], 'size')) and mk[3][1][2] == W
+                kinds['created'] = good_txt and (v == emp[0][3] or named_call(v, 'front'))
+            else:
+                kinds['created'] = False
+        else:
+            ck.fail(R1, f'intern/unrecognised outcome', f'intern has an outcome that is none of empty / reserved / existing / created: returns '
+                    f'{contracts.render(v, st, {})[:160]}', loc=f['loc'], fn=f['id'])
     for k in ('empty', 'reserved', 'existing', 'created'):
         ck.check(R1, 'intern/' + k, kinds.get(k) is True, f'intern: the `{k}` outcome is missing or malformed ({kinds.get(k)})', loc=f['loc'], fn=f['id'])
     # the predicate is full content equality with the word
-    lam = [g for g in F.fn.values() if g.get('lambda_call') and g['id'].startswith(INTERN) and '(lambda eq)' in g['id'] and g['name'] == 'operator()']
     R1b = ck.rule('C03.content-equality', 'the bucket search compares the whole content with the word', floor=1)
     good = False
-    if lam:
-        S2 = Sym(F, opaque=lambda fid: F.fn.get(fid) is None)
-        st = State()
-        clo = st.new_obj(lam[0]['parent'], origin=('lambda',))
-        st.heap[clo[1]].tag = {'w': ('sym', 'w')}
-        o = S2.run(lam[0]['id'], this=clo, args=[('param', 0)], state=st)
-        if len(o) == 1 and o[0][1] == 'return':
-            v = o[0][2]
-            # the content of x: what characters() yields on an impl::String
-            S5 = Sym(F, opaque=lambda fid: F.fn.get(fid) is None)
-            st5 = State()
-            cf = F.final_overrider('ipr::impl::String', 'ipr::String::characters() const')
-            content = None
-            if cf and cf in F.fn:
-                r5 = S5.run(cf, this=('param', 0), args=[], state=st5)
-                content = r5[0][2] if len(r5) == 1 else None
-            good = isinstance(v, tuple) and v[0] == 'call' and contracts.fn_simple(v[1]) == 'operator==' and len(v[3]) == 2 and \
-                ('sym', 'w') in v[3] and any((named_call(a, 'characters') and a[2] == ('param', 0)) or (content is not None and a == content) for a in v[3])
-    ck.check(R1b, 'eq predicate', good, 'the search predicate is not `x.characters() == w`', loc=(lam[0]['loc'] if lam else f['loc']))
+    lam_loc = f['loc']
+    if found_pred:
+        v, elem = found_pred[0]
+        S5 = Sym(F, opaque=lambda fid: F.fn.get(fid) is None)
+        cf = F.final_overrider('ipr::impl::String', 'ipr::String::characters() const')
+        content = None
+        if cf and cf in F.fn:
+            r5 = S5.run(cf, this=elem, args=[], state=State())
+            content = r5[0][2] if len(r5) == 1 else None
+        # whole-content equality: std::operator==(string_view, string_view) on (content of the element, the word)
+        good = isinstance(v, tuple) and v[0] == 'call' and contracts.fn_simple(v[1]) == 'operator==' and 'basic_string_view' in v[1] \
+            and len(v[3]) == 2 and W in v[3] \
+            and any((named_call(a, 'characters') and a[2] == elem) or (content is not None and a == content) for a in v[3])
+    ck.check(R1b, 'eq predicate', good, 'the bucket search does not test `content of the element == the word` (whole string_view equality): '
+             + (contracts.render(found_pred[0][0], State(), {})[:200] if found_pred else 'no search found'), loc=lam_loc)
 
     # ---------------------------------------------------------------- make_string
     R2 = ck.rule('C03.arena-copy', 'make_string records the length n and copies exactly [s, s+n) to the data of the header it allocated', floor=2)
@@ -209,78 +200,104 @@ def run(ck, F):
         raise AnalysisBroken(f'arena constants not folded: headersz={headersz} bufsz={bufsz} poolsz={poolsz} padding={pad}')
     srec = F.need_rec('ipr::util::string')
     fields = [(fl['name'], fl['t']) for fl in srec['fields']]
-    if [n for n, _t in fields] != ['length', 'data'] or fields[0][1] != 'long':
-        raise AnalysisBroken(f'layout of util::string changed: {fields}')
+    if len(fields) != 2 or fields[0][1] != 'long' or '[' not in fields[1][1]:
+        raise AnalysisBroken(f'layout of util::string changed (a long length followed by the inline bytes expected): {fields}')
     off_data = 8                       # sizeof(long): data follows length (char8_t has alignment 1)
     prec = F.need_rec('ipr::util::string::arena::pool')
     pf = [(fl['name'], fl['t']) for fl in prec['fields']]
-    if [n for n, _t in pf] != ['previous', 'storage']:
-        raise AnalysisBroken(f'layout of arena::pool changed: {pf}')
+    if len(pf) != 2 or not pf[0][1].rstrip().endswith('*') or '[' not in pf[1][1]:
+        raise AnalysisBroken(f'layout of arena::pool changed (a link followed by the header storage expected): {pf}')
+    F_STORAGE = pf[1][0]
+    F_NEXT = F.role_field('ipr::util::string::arena', lambda fl: fl['t'].replace('ipr::util::', '').rstrip() in ('string *', 'ipr::util::string *') or fl['t'].rstrip().endswith('string *'), 'next free header')
     off_storage = 8
     ck.extra['constants'] = {'headersz': headersz, 'bufsz': bufsz, 'poolsz': poolsz, 'padding_count': pad, 'offsetof(data)': off_data}
-    if len(outs) != 3:
-        raise AnalysisBroken(f'arena::allocate has {len(outs)} paths (3 expected)')
-    mterm = None
-    for st, k, v in outs:
-        for c, val in st.conds:
-            if isinstance(c, tuple) and c[0] == 'op' and c[1] == '<=':
-                mterm = c[2]
+    NH = ('fld', ('sym', 'this'), F_NEXT)
+
+    def le_facts(conds):
+        """(lhs, rhs, strict) with lhs <= rhs (or <) known on the path, whatever way the test was written."""
+        out = []
+        for c, val in conds:
+            if not (isinstance(c, tuple) and c and c[0] == 'op' and c[1] in ('<=', '<', '>=', '>')):
+                continue
+            op, x, y = c[1], c[2], c[3]
+            if not val:
+                op = {'<=': '>', '<': '>=', '>=': '<', '>': '<='}[op]
+            if op in ('>=', '>'):
+                x, y, op = y, x, {'>=': '<=', '>': '<'}[op]
+            out.append((x, y, op == '<'))
+        return out
+
+    # the in-pool path: nothing allocated, the old next_header returned, next_header advanced by the granule count
+    rets = [(st, v) for st, k, v in outs if k == 'return']
+    if len(rets) != len(outs):
+        ck.fail(R3, 'no-throw', 'arena::allocate can throw on a path', loc=af['loc'], fn=af['id'])
+    inpool = [(st, v) for st, v in rets if not any(named_call(t, 'operator new') for t in subterms(v))
+              and not any(named_call(t, 'operator new') for kv in st.symstore.items() for x in kv for t in subterms(x))]
+    if len(inpool) != 1:
+        raise AnalysisBroken(f'arena::allocate has {len(inpool)} paths that allocate nothing (1 expected)')
+    st0, v0 = inpool[0]
+    nh0 = st0.symstore.get(NH)
+    mterm = nh0[3] if isinstance(nh0, tuple) and nh0[0] == 'op' and nh0[1] == '+' and nh0[2] == NH else None
     g = granules(mterm, N) if mterm is not None else None
     if g is None:
-        raise AnalysisBroken('granule count is not of the recognised form (n + c1)/d + c2: ' + contracts.render(mterm, outs[0][0], {}) if mterm else 'no guard found')
+        raise AnalysisBroken('the in-pool path does not advance next_header by a granule count of the form (n + c1)/d + c2: '
+                             + (contracts.render(nh0, st0, {}) if nh0 else 'next_header unchanged'))
     c1, d, c2 = g
     ck.extra['granule_formula'] = f'm = (n + {c1})/{d} + {c2}'
     ck.check(R3, 'granules-suffice', d == headersz and c1 >= 0 and d * c2 + c1 - (d - 1) >= off_data,
              f'm = (n+{c1})/{d}+{c2} granules of {headersz} bytes: m*{d} >= n + {d * c2 + c1 - (d - 1)} but header+data need n + {off_data} '
              f'(for every n: floor((n+c1)/d) >= (n+c1-(d-1))/d)', loc=af['loc'], fn=af['id'], detail={'c1': c1, 'd': d, 'c2': c2})
-    # classify paths
-    seen = set()
-    for st, k, v in outs:
-        guard = [(c, val) for c, val in st.conds if isinstance(c, tuple) and c[0] == 'op' and c[1] == '<=' and c[2] == mterm]
-        big = [(c, val) for c, val in st.conds if isinstance(c, tuple) and c[0] == 'op' and c[1] == '>' and c[2] == N]
-        news = [t for t in subterms(v) if named_call(t, 'operator new')]
-        if guard and guard[0][1] is True:
-            seen.add('in-pool')
-            rem = guard[0][0][3]
-            txt = contracts.render(rem, st, {})
-            okrem = rem[0] == 'op' and rem[1] == '-' and rem[3] == ('fld', ('sym', 'this'), 'next_header') and 'storage' in txt and \
-                linear(rem[2][3], N) == (0, bufsz) if rem[2][0] == 'op' else False
-            nh = st.symstore.get(('fld', ('sym', 'this'), 'next_header'))
-            adv = nh == ('op', '+', ('fld', ('sym', 'this'), 'next_header'), mterm)
-            ck.check(R3, 'in-pool', okrem and v == ('fld', ('sym', 'this'), 'next_header') and adv and not news,
-                     f'in-pool path: guard is m <= {txt}; returns {contracts.render(v, st, {})}; next_header becomes {contracts.render(nh, st, {}) if nh else None}',
-                     loc=af['loc'], fn=af['id'])
-        elif big and big[0][1] is True:
-            seen.add('oversize')
-            thr = linear(big[0][0][3], N)
-            sz = linear(news[0][3][0], N) if len(news) == 1 else None
-            need_extra = off_storage + off_data
-            ok = thr is not None and thr[0] == 0 and sz is not None and sz[0] == 1 and sz[1] >= need_extra
-            linked = any(e[0] == 'write' and e[1][0] == 'fld' and e[1][2] == 'previous' for e in st.effects)
-            ck.check(R3, 'oversize', ok and linked,
-                     f'oversize path (n > {thr[1] if thr else "?"}): block of n + {sz[1] if sz else "?"} bytes, header + data need n + {need_extra}; linked into the chain={linked}',
+    guards = [(x, y, strict) for x, y, strict in le_facts(st0.conds) if x == mterm]
+    okrem, txt = False, 'no test of the granule count against the remaining count'
+    for x, rem, strict in guards:
+        txt = contracts.render(rem, st0, {})
+        okrem = okrem or (rem[0] == 'op' and rem[1] == '-' and rem[3] == NH and F_STORAGE in txt and
+                          (linear(rem[2][3], N) == (0, bufsz) if rem[2][0] == 'op' else False))
+    ck.check(R3, 'in-pool', okrem and v0 == NH,
+             f'in-pool path: the granule count is bounded by {txt}; returns {contracts.render(v0, st0, {})}', loc=af['loc'], fn=af['id'])
+    seen = {'in-pool'}
+    for st, v in rets:
+        if (st, v) == inpool[0]:
+            continue
+        news = list({t for t in subterms(v) if named_call(t, 'operator new')})
+        if len(news) != 1:
+            ck.fail(R3, 'allocating path', f'a path of allocate returns {contracts.render(v, st, {})}, not storage of one fresh block',
+                    loc=af['loc'], fn=af['id'])
+            continue
+        sz = linear(news[0][3][0], N)
+        if sz is None:
+            raise AnalysisBroken('size of a fresh block is not linear in n: ' + contracts.render(news[0][3][0], st, {}))
+        # bounds on n known on this path
+        ub = [(linear(y, N)[1] - (1 if strict else 0)) for x, y, strict in le_facts(st.conds) if x == N and linear(y, N) and linear(y, N)[0] == 0]
+        lb = [(linear(x, N)[1] + (1 if strict else 0)) for x, y, strict in le_facts(st.conds) if y == N and linear(x, N) and linear(x, N)[0] == 0]
+        returns_storage = v[0] == 'fld' and v[2] == F_STORAGE and v[1] == ('deref', news[0])
+        if sz[0] == 0:
+            kind = 'fresh-pool'
+            seen.add(kind)
+            T = min(ub) if ub else None
+            nh = st.symstore.get(NH)
+            adv = isinstance(nh, tuple) and nh[0] == 'op' and nh[1] == '+' and nh[3] == mterm and nh[2] == v
+            ok = T is not None and (T + c1) // d + c2 <= bufsz and sz[1] >= off_storage + bufsz * headersz and returns_storage
+            ck.check(R3, kind, ok and adv,
+                     f'fresh-pool path (n <= {T if T is not None else "unbounded"}): needs m <= {(T + c1) // d + c2 if T is not None else "?"} of the '
+                     f'{bufsz} granules of a pool of {sz[1]} bytes; returns the storage of the new pool={returns_storage}; next_header advanced by m={adv}',
                      loc=af['loc'], fn=af['id'])
         else:
-            seen.add('fresh-pool')
-            thr = linear(big[0][0][3], N) if big else None
-            sz = linear(news[0][3][0], N) if len(news) == 1 else None
-            # n <= T  ==>  m(n) <= bufsz ; pool holds bufsz granules after its link field
-            ok = thr is not None and thr[0] == 0 and (thr[1] + c1) // d + c2 <= bufsz and sz is not None and sz[0] == 0 and \
-                sz[1] >= off_storage + bufsz * headersz
-            nh = st.symstore.get(('fld', ('sym', 'this'), 'next_header'))
-            adv = isinstance(nh, tuple) and nh[0] == 'op' and nh[1] == '+' and nh[3] == mterm and nh[2] == v
-            linked = st.symstore.get(('fld', ('sym', 'this'), 'mem')) == news[0] if news else False
-            ck.check(R3, 'fresh-pool', ok and adv and linked,
-                     f'fresh-pool path (n <= {thr[1] if thr else "?"}): m <= {(thr[1] + c1) // d + c2 if thr else "?"} of {bufsz} granules; pool of {sz[1] if sz else "?"} bytes; '
-                     f'next_header advanced={adv}; pool linked={linked}', loc=af['loc'], fn=af['id'])
+            kind = 'oversize'
+            seen.add(kind)
+            need_extra = off_storage + off_data
+            ok = sz[0] >= 1 and sz[1] >= need_extra - (sz[0] - 1) * (min(lb) if lb else 0) and returns_storage
+            ck.check(R3, kind, ok,
+                     f'oversize path (n >= {min(lb) if lb else "?"}): block of {sz[0]}*n + {sz[1]} bytes, link + header + data need n + {need_extra}; '
+                     f'returns the storage of the new block={returns_storage}', loc=af['loc'], fn=af['id'])
     ck.check(R3, 'three-paths', seen == {'in-pool', 'oversize', 'fresh-pool'}, f'allocate paths recognised: {sorted(seen)}', loc=af['loc'], fn=af['id'])
 
     # ---------------------------------------------------------------- immutability
     R4 = ck.rule('C03.immutable', 'a String\'s view is const, the only writes through a util::string are in make_string, buckets are '
                  'reference-stable lists and the arena releases storage only in its destructor', floor=4)
     srec2 = F.need_rec('ipr::impl::String')
-    txt = [fl for fl in srec2['fields'] if fl['name'] == 'txt']
-    ck.check(R4, 'String::txt const', bool(txt) and txt[0]['const'] and not txt[0]['mutable'], 'impl::String::txt is not a const member', loc=srec2['loc'])
+    txt = [fl for fl in srec2['fields'] if 'basic_string_view' in fl['t'] or 'word_view' in fl['t']]
+    ck.check(R4, 'String view const', len(txt) == 1 and txt[0]['const'] and not txt[0]['mutable'], 'the character view held by impl::String is not a const member', loc=srec2['loc'])
     writers = set()
     for g2 in F.fn.values():
         for n in walk(g2.get('body')):
